@@ -16,7 +16,45 @@ package genql
 import (
 	"bytes"
 	"fmt"
+	"strings"
 )
+
+// The index just past the comment that starts at str[i] outside any quote, or i
+// when none starts there. The rules are the tokenizer's: # , // and "-- " run to
+// the end of the line, /* runs to the next */ ; the body of /*! is SQL, not a comment
+func skipComment(str string, i int) int {
+	lineEnd := func() int {
+		if n := strings.IndexByte(str[i:], '\n'); n >= 0 {
+			return i + n + 1
+		}
+		return len(str)
+	}
+	switch str[i] {
+	case '#':
+		return lineEnd()
+	case '-':
+		if i+1 < len(str) && str[i+1] == '-' {
+			if i+2 == len(str) {
+				return len(str)
+			}
+			switch str[i+2] {
+			case ' ', '\n', '\t', '\r':
+				return lineEnd()
+			}
+		}
+	case '/':
+		if i+1 < len(str) && str[i+1] == '/' {
+			return lineEnd()
+		}
+		if i+1 < len(str) && str[i+1] == '*' && !(i+2 < len(str) && str[i+2] == '!') {
+			if n := strings.Index(str[i+2:], "*/"); n >= 0 {
+				return i + 2 + n + 2
+			}
+			return len(str)
+		}
+	}
+	return i
+}
 
 func DoubleQuotesToBackTick(str string) (string, error) {
 	buffer := bytes.NewBufferString("")
@@ -93,6 +131,11 @@ func DoubleQuotesToBackTick(str string) (string, error) {
 			}
 		default:
 			{
+				if end := skipComment(str, i); end > i {
+					buffer.WriteString(str[i:end])
+					i = end - 1
+					continue
+				}
 				buffer.WriteByte(byte(r))
 			}
 		}
@@ -107,6 +150,12 @@ func FindArrayIndex(str string) ([][]int, error) {
 	pos := 0
 	for i := 0; i < len(str); i++ {
 		r := str[i]
+		if hold == nil {
+			if end := skipComment(str, i); end > i {
+				i = end - 1
+				continue
+			}
+		}
 		switch r {
 		case '\\':
 			{
